@@ -15,15 +15,27 @@ import (
 // environment-fault histories against real sockets, built from an
 // un-instrumented copy of the working tree with one test file added.
 
-type kStep struct {
-	Addr string `json:"addr"`
-	Env  string `json:"env"`
-	Mode string `json:"mode"`
+// kHistory is a history of a real-kernel leg, kept as the JSON the test wrote.
+type kHistory struct {
+	raw  json.RawMessage
+	Seed int64
 }
 
-type kHistory struct {
-	Seed  int64   `json:"seed"`
-	Steps []kStep `json:"steps"`
+func (h *kHistory) UnmarshalJSON(b []byte) error {
+	h.raw = append(json.RawMessage{}, b...)
+	var s struct {
+		Seed int64 `json:"seed"`
+	}
+	json.Unmarshal(b, &s)
+	h.Seed = s.Seed
+	return nil
+}
+
+func (h kHistory) MarshalJSON() ([]byte, error) {
+	if h.raw == nil {
+		return []byte("null"), nil
+	}
+	return h.raw, nil
 }
 
 type kViolation struct {
@@ -31,7 +43,6 @@ type kViolation struct {
 	Key     string   `json:"key"`
 	Detail  string   `json:"detail"`
 	History kHistory `json:"history"`
-	Step    int      `json:"step"`
 }
 
 type kSummary struct {
@@ -42,6 +53,18 @@ type kSummary struct {
 	Violations []kViolation   `json:"violations"`
 	Samples    []kHistory     `json:"samples"`
 	Hung       bool           `json:"hung"`
+}
+
+// realLeg describes one real-kernel leg.
+type realLeg struct {
+	test  string // test function
+	what  string
+	quick int // histories in the quick tier
+}
+
+var realLegs = map[string]realLeg{
+	"C19": {"TestVerifC19Kernel", "NOT simulated: seeded address / environment-fault histories (stale socket, regular file, directory, missing parent, foreign listener) on the real kernel for filesystem, abstract and tcp endpoints; Bind / DoListen / Listen / Shutdown / NewConnection+GetInfo with the same string, in a private temporary directory", 4000},
+	"C03": {"TestVerifC03Transports", "NOT simulated: seeded call / reply / more-sequence round trips over the four real transports (filesystem unix socket, abstract unix socket, tcp, bridge subprocess = this test binary re-executed through sh -c by varlink.NewBridge), parameters compared as JSON with number lexemes", 600},
 }
 
 func buildKernelLeg() (string, string) {
@@ -61,7 +84,10 @@ func buildKernelLeg() (string, string) {
 	must(copyTree(filepath.Join(repoDir, "varlink"), filepath.Join(repo, "varlink"), func(rel string, isDir bool) bool {
 		return !isDir && strings.HasSuffix(rel, "_test.go")
 	}))
-	must(copyFile(filepath.Join(verifDir, "kernel_leg/c19_kernel_test.go"), filepath.Join(repo, "varlink/verif_c19_kernel_test.go")))
+	legFiles, _ := filepath.Glob(filepath.Join(verifDir, "kernel_leg/*_test.go"))
+	for _, f := range legFiles {
+		must(copyFile(f, filepath.Join(repo, "varlink", "verif_"+filepath.Base(f))))
+	}
 	bin := filepath.Join(scratch, "k.test")
 	out, err := run(repo, goEnv(), "go1.26.8", "test", "-c", "-trimpath", "-o", bin, "./varlink/")
 	if err != nil {
@@ -71,13 +97,13 @@ func buildKernelLeg() (string, string) {
 	return scratch, bin
 }
 
-func runKernelProc(scratch, bin, tag string, spec map[string]interface{}, timeout time.Duration) (*kSummary, error) {
+func runKernelProc(scratch, bin, test, tag string, spec map[string]interface{}, timeout time.Duration) (*kSummary, error) {
 	outPath := filepath.Join(scratch, "kout-"+tag+".json")
 	spec["out"] = outPath
 	sb, _ := json.Marshal(spec)
 	specPath := filepath.Join(scratch, "kspec-"+tag+".json")
 	os.WriteFile(specPath, sb, 0o644)
-	cmd := exec.Command(bin, "-test.run", "^TestVerifC19Kernel$", "-test.timeout", "0")
+	cmd := exec.Command(bin, "-test.run", "^"+test+"$", "-test.timeout", "0")
 	cmd.Env = append(os.Environ(), "VERIF_KSPEC="+specPath)
 	cmd.Dir = scratch
 	done := make(chan error, 1)
@@ -107,14 +133,15 @@ func runKernelProc(scratch, bin, tag string, spec map[string]interface{}, timeou
 	return &sum, nil
 }
 
-func runKernelLeg(seed uint64, tier string, budgetSec, workers int) (map[string]interface{}, []kViolation) {
+func runKernelLeg(id string, seed uint64, tier string, budgetSec, workers int) (map[string]interface{}, []kViolation) {
+	leg := realLegs[id]
 	start := time.Now()
 	scratch, bin := buildKernelLeg()
 	defer os.RemoveAll(scratch)
 	if workers > 8 {
 		workers = 8
 	}
-	count := 4000
+	count := leg.quick
 	if tier == "thorough" {
 		count = 1 << 30
 	}
@@ -126,7 +153,7 @@ func runKernelLeg(seed uint64, tier string, budgetSec, workers int) (map[string]
 		go func(w int) {
 			defer wg.Done()
 			spec := map[string]interface{}{"seed_base": int64(seed % (1 << 40)), "index_from": w, "stride": workers, "count": count / workers, "budget_ms": budgetSec * 1000}
-			sums[w], errs[w] = runKernelProc(scratch, bin, fmt.Sprintf("w%d", w), spec, time.Duration(budgetSec)*time.Second+90*time.Second)
+			sums[w], errs[w] = runKernelProc(scratch, bin, leg.test, fmt.Sprintf("w%d", w), spec, time.Duration(budgetSec)*time.Second+90*time.Second)
 		}(w)
 	}
 	wg.Wait()
@@ -152,7 +179,7 @@ func runKernelLeg(seed uint64, tier string, budgetSec, workers int) (map[string]
 	}
 	extra := map[string]interface{}{
 		"kernel_leg": map[string]interface{}{
-			"what":                 "NOT simulated: seeded address / environment-fault histories (stale socket, regular file, directory, missing parent, foreign listener) on the real kernel for filesystem, abstract and tcp endpoints; Bind / DoListen / Listen / Shutdown / NewConnection+GetInfo with the same string, in a private temporary directory",
+			"what":                 leg.what,
 			"histories":            total.Runs,
 			"steps":                total.Steps,
 			"distinct_step_shapes": total.Distinct,
@@ -162,14 +189,14 @@ func runKernelLeg(seed uint64, tier string, budgetSec, workers int) (map[string]
 			"wall_s":               time.Since(start).Seconds(),
 		},
 	}
-	fmt.Printf("C19 kernel leg: %d histories, %d steps, %d violating, %.1fs\n", total.Runs, total.Steps, len(total.Violations), time.Since(start).Seconds())
+	fmt.Printf(id+" real-kernel leg: %d histories, %d steps, %d violating, %.1fs\n", total.Runs, total.Steps, len(total.Violations), time.Since(start).Seconds())
 	return extra, total.Violations
 }
 
-func replayKernelLeg(h kHistory) ([]Violation, error) {
+func replayKernelLeg(id string, h kHistory) ([]Violation, error) {
 	scratch, bin := buildKernelLeg()
 	defer os.RemoveAll(scratch)
-	sum, err := runKernelProc(scratch, bin, "replay", map[string]interface{}{"replay": h}, 180*time.Second)
+	sum, err := runKernelProc(scratch, bin, realLegs[id].test, "replay", map[string]interface{}{"replay": h}, 180*time.Second)
 	if err != nil {
 		return nil, err
 	}
